@@ -4,10 +4,17 @@
 
     [reachable page fit b]: b was produced by NewBlocks on some storage (any size,
     any content) and any sequence of ArrangeBlock / FreeBlock / Block / user
-    writes into blocks / reopen / counter calls.  [page] is os.Getpagesize(). *)
+    writes into blocks / reopen / counter calls / Grow of the storage under the
+    live allocator ([OGrow]).  [page] is os.Getpagesize().
+
+    [tight fit b]: the allocator covers the storage it sits on (segments =
+    size / segment size, and a whole number of segments under fit): what
+    NewBlocks establishes and every operation but Grow keeps.  After a Grow the
+    live allocator keeps the geometry NewBlocks computed; the room shows after
+    the next reopen. *)
 From Coq Require Import List ZArith NArith Bool Lia.
 From GL Require Import model.Blocks model.legacy.BlocksLegacy spec.AllocSet
-  proofs.C17_Bytes proofs.C17_Geometry proofs.C17_Count proofs.C17_Inv proofs.C17_Blocks.
+  proofs.C17_Bytes proofs.C17_Geometry proofs.C17_Count proofs.C17_Inv proofs.C17_Grow proofs.C17_Blocks.
 Import ListNotations.
 Open Scope Z_scope.
 
@@ -151,7 +158,7 @@ Print Assumptions C17_available_eq.
 Theorem C17_reachable_invariant : forall page fit b, reachable page fit b ->
   let bs := blkSize b in
   valid_bs page bs /\ blksInSegm b = 8 * bs /\ 1 <= segments b /\
-  segments b = bsize (bts b) / ssz bs /\
+  segments b * ssz bs <= bsize (bts b) /\
   0 <= freeIdx b /\
   (segments b * ssz bs <= freeIdx b \/ freeIdx b mod ssz bs < bs) /\
   (forall s p, 0 <= s < segments b -> 0 <= p < bs -> hdr_addr bs s p < freeIdx b ->
@@ -211,7 +218,7 @@ Proof. vm_compute. repeat split; reflexivity. Qed.
 
 (** * The allocation state lives in the bytes *)
 
-Theorem C17_reopen_same : forall page fit b, reachable page fit b ->
+Theorem C17_reopen_same : forall page fit b, reachable page fit b -> tight fit b ->
   exists b0, new_blocks page (blkSize b) (bts b) fit = CtorOk b0 /\
     reachable page fit b0 /\
     alloc_list b0 = alloc_list b /\ available b0 = available b /\
@@ -220,23 +227,78 @@ Theorem C17_reopen_same : forall page fit b, reachable page fit b ->
 Proof. exact reopen_same. Qed.
 Print Assumptions C17_reopen_same.
 
+(** [tight] holds after NewBlocks and along every history without Grow *)
+Theorem C17_tight_without_grow : forall page bs buf fit b0 ops,
+  0 < page -> 0 <= bsize buf -> new_blocks page bs buf fit = CtorOk b0 ->
+  no_grow ops = true -> tight fit (snd (run page fit b0 ops)).
+Proof.
+  intros page bs buf fit b0 ops Hp Hsz Hnew Hng.
+  destruct (new_blocks_inv _ _ _ _ _ Hp Hsz Hnew) as [_ I0].
+  exact (run_tight page fit ops b0 I0 (new_blocks_tight _ _ _ _ _ Hp Hsz Hnew) Hng).
+Qed.
+Print Assumptions C17_tight_without_grow.
+
+(** any reachable state, also with room behind the live segments (after Grow) *)
+Theorem C17_reopen_grown : forall page fit b, reachable page fit b ->
+  (fit = true /\ bsize (bts b) mod ssz (blkSize b) <> 0 /\
+   new_blocks page (blkSize b) (bts b) fit = CtorErr EInvalid)
+  \/
+  exists b0, new_blocks page (blkSize b) (bts b) fit = CtorOk b0 /\
+    reachable page fit b0 /\ tight fit b0 /\
+    blkSize b0 = blkSize b /\ bts b0 = bts b /\
+    segments b0 = bsize (bts b) / ssz (blkSize b) /\ segments b <= segments b0 /\
+    blocks_count b <= blocks_count b0 /\
+    alloc_list b0 = alloc_list b ++ filter (fun i => i <? blocks_count b0) (hidden_list b) /\
+    (forall i, i < blocks_count b -> (In i (alloc_list b0) <-> In i (alloc_list b))) /\
+    abs b0 = fst (sp_step fit (abs b) OReopen).
+Proof. exact reopen_grown. Qed.
+Print Assumptions C17_reopen_grown.
+
 Theorem C17_reopen_after_every_prefix : forall page bs buf fit b0 ops n,
   0 < page -> 0 <= bsize buf -> new_blocks page bs buf fit = CtorOk b0 ->
+  no_grow ops = true ->
   let b := snd (run page fit b0 (firstn n ops)) in
   exists b1, new_blocks page (blkSize b) (bts b) fit = CtorOk b1 /\
     alloc_list b1 = alloc_list b /\ available b1 = available b /\ blocks_count b1 = blocks_count b.
 Proof. exact reopen_after_every_prefix. Qed.
 Print Assumptions C17_reopen_after_every_prefix.
 
-Theorem C17_state_in_bytes : forall page fit b, reachable page fit b ->
+Theorem C17_reopen_after_every_prefix_grown : forall page bs buf fit b0 ops n,
+  0 < page -> 0 <= bsize buf -> new_blocks page bs buf fit = CtorOk b0 ->
+  let b := snd (run page fit b0 (firstn n ops)) in
+  (fit = true /\ bsize (bts b) mod ssz (blkSize b) <> 0 /\
+   new_blocks page (blkSize b) (bts b) fit = CtorErr EInvalid)
+  \/
+  exists b1, new_blocks page (blkSize b) (bts b) fit = CtorOk b1 /\
+    blocks_count b <= blocks_count b1 /\
+    (forall i, i < blocks_count b -> (In i (alloc_list b1) <-> In i (alloc_list b))) /\
+    available b1 = blocks_count b1 - Z.of_nat (length (alloc_list b1)).
+Proof. exact reopen_after_every_prefix_grown. Qed.
+Print Assumptions C17_reopen_after_every_prefix_grown.
+
+Theorem C17_state_in_bytes : forall page fit b, reachable page fit b -> tight fit b ->
   let bs := blkSize b in let segs := bsize (bts b) / ssz bs in
   segments b = segs /\
   alloc_list b = alloc_of_bytes bs segs (bts b) /\
   blocks_count b = segs * (8 * bs) /\
   available b = segs * (8 * bs) - Z.of_nat (length (alloc_of_bytes bs segs (bts b))) /\
-  forall ops, fst (run page fit b ops) = fst (sp_run (mkSpec bs segs (alloc_of_bytes bs segs (bts b))) ops).
+  forall ops, fst (run page fit b ops) = fst (sp_run fit (spec_of_bytes bs (bts b)) ops).
 Proof. exact state_in_bytes. Qed.
 Print Assumptions C17_state_in_bytes.
+
+(** with room behind the live segments the number of segments the allocator was
+    opened with is the one piece of state outside the bytes *)
+Theorem C17_state_in_bytes_and_segments : forall page fit b, reachable page fit b ->
+  let bs := blkSize b in let segs := segments b in
+  segs * ssz bs <= bsize (bts b) /\
+  alloc_list b = alloc_of_bytes bs segs (bts b) /\
+  blocks_count b = segs * (8 * bs) /\
+  available b = segs * (8 * bs) - Z.of_nat (length (alloc_of_bytes bs segs (bts b))) /\
+  forall ops, fst (run page fit b ops) =
+              fst (sp_run fit (mkSpec bs segs (alloc_of_bytes bs segs (bts b)) (bsize (bts b))
+                                 (hidden_of_bytes bs segs (bts b))) ops).
+Proof. exact state_in_bytes_and_segments. Qed.
+Print Assumptions C17_state_in_bytes_and_segments.
 
 Definition C17_ex_exh : blocks := fst (arrange (fst (arrange C17_ex_b))).
 Definition C17_ex_reopened : blocks :=
@@ -249,6 +311,64 @@ Example C17_ex_reopen :
   available C17_ex_reopened = 0 /\ available C17_ex_exh = 0 /\
   length (alloc_list C17_ex_reopened) = 16%nat.
 Proof. vm_compute. repeat split; reflexivity. Qed.
+
+Example C17_ex_tight : tight true C17_ex_b /\ no_grow C17_ex_ops = true.
+Proof. split; [split; [vm_compute; reflexivity|intros _; vm_compute; reflexivity]|vm_compute; reflexivity]. Qed.
+
+(** Grow under the live allocator: block size 1, 20 bytes (two segments and two
+    spare bytes), byte 18 - where the header of a third segment would be - holds
+    garbage 5 (bits 0 and 2).  Fill everything, grow to three segments: the live
+    allocator is still exhausted and still has 2 segments; a smaller size is an
+    error; after the reopen there are 3 segments, the garbage marks 16 and 18
+    count as allocated, ArrangeBlock goes on with the freed 3, then 17, 19. *)
+Definition C17_ex_g0 : blocks :=
+  match new_blocks 4096 1 (bset (zero_buffer 20) 18 5%N) false with
+  | CtorOk b => b | _ => mkBlocks 0 0 0 0 0 (zero_buffer 0) end.
+
+Definition C17_ex_gops : list op :=
+  [OArrange; OArrange; OArrange; OArrange; OArrange; OArrange; OArrange; OArrange; OArrange;
+   OArrange; OArrange; OArrange; OArrange; OArrange; OArrange; OArrange; OArrange;
+   OGrow 27; OArrange; OSegments; OCount; OAvail; OFree 3; OGrow 10; OFree 16; OAvail;
+   OReopen; OSegments; OCount; OAvail; OArrange; OArrange; OArrange; OFree 16; OFree 9; OArrange].
+
+Example C17_ex_grow :
+  fst (run 4096 false C17_ex_g0 C17_ex_gops) =
+  [OutIdx 0; OutIdx 1; OutIdx 2; OutIdx 3; OutIdx 4; OutIdx 5; OutIdx 6; OutIdx 7; OutIdx 8;
+   OutIdx 9; OutIdx 10; OutIdx 11; OutIdx 12; OutIdx 13; OutIdx 14; OutIdx 15; OutErr EExhausted;
+   OutOk; OutErr EExhausted; OutN 2; OutN 16; OutN 0; OutOk; OutErr EOther; OutErr EInvalid; OutN 1;
+   OutOk; OutN 3; OutN 24; OutN 7; OutIdx 3; OutIdx 17; OutIdx 19; OutOk; OutOk; OutIdx 9] /\
+  fst (sp_run false (abs C17_ex_g0) C17_ex_gops) = fst (run 4096 false C17_ex_g0 C17_ex_gops) /\
+  hidden_list C17_ex_g0 = [16; 18] /\
+  alloc_list (snd (run 4096 false C17_ex_g0 C17_ex_gops)) =
+    [0; 1; 2; 3; 4; 5; 6; 7; 8; 9; 10; 11; 12; 13; 14; 15; 17; 18; 19] /\
+  no_grow C17_ex_gops = false.
+Proof. vm_compute. repeat split; reflexivity. Qed.
+
+(** the state right after the Grow: not tight, the reopen adds the garbage marks *)
+Definition C17_ex_gb : blocks := snd (run 4096 false C17_ex_g0 (firstn 23 C17_ex_gops)).
+
+Example C17_ex_grown_state :
+  reachable 4096 false C17_ex_gb /\ segments C17_ex_gb = 2 /\ bsize (bts C17_ex_gb) / ssz 1 = 3 /\
+  alloc_list C17_ex_gb = [0; 1; 2; 4; 5; 6; 7; 8; 9; 10; 11; 12; 13; 14; 15] /\
+  hidden_list C17_ex_gb = [16; 18] /\
+  match new_blocks 4096 1 (bts C17_ex_gb) false with
+  | CtorOk b1 => alloc_list b1 = [0; 1; 2; 4; 5; 6; 7; 8; 9; 10; 11; 12; 13; 14; 15; 16; 18] /\ available b1 = 7
+  | _ => False
+  end.
+Proof.
+  split.
+  { exists 1, (bset (zero_buffer 20) 18 5%N), C17_ex_g0, (firstn 23 C17_ex_gops).
+    split; [lia|]. split; [cbn; lia|]. split; [vm_compute; reflexivity|reflexivity]. }
+  vm_compute. repeat split; reflexivity.
+Qed.
+
+(** under fit a grown size that is not a whole number of segments makes the reopen fail *)
+Example C17_ex_grow_fit :
+  fst (run 4096 true C17_ex_b0 [OArrange; OGrow 20; OReopen; OArrange; OGrow 27; OReopen; OSegments; OAvail]) =
+  [OutIdx 0; OutOk; OutErr EInvalid; OutIdx 1; OutOk; OutOk; OutN 3; OutN 22] /\
+  fst (sp_run true (abs C17_ex_b0) [OArrange; OGrow 20; OReopen; OArrange; OGrow 27; OReopen; OSegments; OAvail]) =
+  [OutIdx 0; OutOk; OutErr EInvalid; OutIdx 1; OutOk; OutOk; OutN 3; OutN 22].
+Proof. vm_compute. split; reflexivity. Qed.
 
 (** * User writes into blocks *)
 
@@ -281,8 +401,8 @@ Proof. vm_compute. repeat split; reflexivity. Qed.
 
 Theorem C17_blocks_refine_allocset : forall page bs buf fit b0 ops,
   0 < page -> 0 <= bsize buf -> new_blocks page bs buf fit = CtorOk b0 ->
-  fst (run page fit b0 ops) = fst (sp_run (abs b0) ops) /\
-  abs (snd (run page fit b0 ops)) = snd (sp_run (abs b0) ops).
+  fst (run page fit b0 ops) = fst (sp_run fit (abs b0) ops) /\
+  abs (snd (run page fit b0 ops)) = snd (sp_run fit (abs b0) ops).
 Proof. exact blocks_refine_allocset. Qed.
 Print Assumptions C17_blocks_refine_allocset.
 
@@ -294,8 +414,8 @@ Proof. exact run_no_panic. Qed.
 Print Assumptions C17_run_no_panic.
 
 Example C17_ex_refines :
-  fst (sp_run (abs C17_ex_b0) C17_ex_ops) = fst (run 4096 true C17_ex_b0 C17_ex_ops) /\
-  sp_alloc (snd (sp_run (abs C17_ex_b0) C17_ex_ops)) = alloc_list C17_ex_b.
+  fst (sp_run true (abs C17_ex_b0) C17_ex_ops) = fst (run 4096 true C17_ex_b0 C17_ex_ops) /\
+  sp_alloc (snd (sp_run true (abs C17_ex_b0) C17_ex_ops)) = alloc_list C17_ex_b.
 Proof. vm_compute. split; reflexivity. Qed.
 
 Example C17_ex_pokes_in_range : forall o, In o C17_ex_ops -> poke_in_range 1 o.
@@ -309,7 +429,7 @@ Qed.
 Theorem C17_atomic_interleavings_sequential : forall page bs buf fit b0 (progs : list (list op)) tr,
   0 < page -> 0 <= bsize buf -> new_blocks page bs buf fit = CtorOk b0 ->
   interleaving progs tr ->
-  fst (run page fit b0 tr) = fst (sp_run (abs b0) tr) /\
+  fst (run page fit b0 tr) = fst (sp_run fit (abs b0) tr) /\
   reachable page fit (snd (run page fit b0 tr)).
 Proof. exact atomic_interleavings_sequential. Qed.
 Print Assumptions C17_atomic_interleavings_sequential.
